@@ -431,6 +431,9 @@ func checkC06(c *Ctx) (string, bool, []string) {
 		}
 		return rule, false, assume
 	}
+	// the helpers as the very first calls of a process (a program that only
+	// builds queries): probed in processes of their own
+	envProbe(c, "env-first-helper", "QuoteIdent-not-inverse")
 	// 0a. a plain name and a name that needs quoting with the same length and
 	// the same 32-bit checksum, the plain one first (and for a second pair the
 	// other way round): the answer for one must not be the answer kept for the
